@@ -213,6 +213,17 @@ ModelQueriesHex(m) ==
      /\ \A d \in 0 .. 5 : Rng(SheetCellsOp(m, c, d)) = SheetCells(m, c, d)
      /\ \A hf \in Rng(At(m.cells, c)) : Rng(SheetHalffacesOp(m, hf)) = SheetHalffaces(m, hf)
 
+(* C03 on the model: the tracked property vectors (tokens = pre slot, set by *)
+(* Tag) after the collapse's notification / swap sequence, against          *)
+(* CollapsePropsFollow's pairs                                              *)
+ModelCollapseProps(pre, he, m) ==
+  LET pairs == CollapsePropPairs(pre, he, m, m.gV)
+      ok(p, ps) == \A x \in ps : At(p, x[1]) = x[2]
+  IN /\ Len(m.pV) = m.nv /\ Len(m.pE) = Len(m.edges) /\ Len(m.pHE) = 2 * Len(m.edges)
+     /\ Len(m.pF) = Len(m.faces) /\ Len(m.pHF) = 2 * Len(m.faces) /\ Len(m.pC) = Len(m.cells)
+     /\ ok(m.pV, pairs.V) /\ ok(m.pC, pairs.C) /\ ok(m.pE, pairs.E) /\ ok(m.pHE, pairs.HE)
+     /\ ok(m.pF, pairs.F) /\ ok(m.pHF, pairs.HF)
+
 XModelCheck(pre, c, m) ==
   IF m.err # "" THEN "NoInternalError:" \o m.err
   ELSE IF ~WellFormed(m) THEN "WellFormed"
@@ -223,6 +234,7 @@ XModelCheck(pre, c, m) ==
        (IF ~TetShape(m) THEN "C15:TetShape"
         ELSE IF c.op = "collapse_edge" /\ CollapseInContract(pre, c.a) /\ ~CollapseRel(pre, c.a, m, m.ret, m.gV)
              THEN "C15:CollapseRel"
+        ELSE IF c.op = "collapse_edge" /\ CollapseInContract(pre, c.a) /\ ~ModelCollapseProps(pre, c.a, m) THEN "C03:ModelCollapseProps"
         ELSE IF c.op = "collapse_edge" /\ (m.deferred # pre.deferred \/ m.fast # pre.fast) THEN "collapse:modes"
         ELSE IF c.op \in {"tet_add_cell_4", "tet_add_cell_v"} /\ ~AddTetRel(pre, c.l, m, m.ret) THEN "AddTetRel"
         ELSE IF c.op \in {"add_face", "add_cell"} /\ m.ret = -1 /\ ~Unchanged(pre, m) THEN "RejectLeavesUnchanged"
